@@ -299,11 +299,25 @@ def canon(td):
     return out
 
 
+_CONFIRMED_TIMEOUTS = [0]
+
+
 def run_impl(td, op, spelling=0, limit=5.0):
-    """(answer in the model's canonical form, raw result or exception)"""
+    """(answer in the model's canonical form, raw result or exception).
+    A timeout is only believed after a retry with a 6x longer limit (a loaded box must not produce a VIOLATION);
+    after three confirmed non-terminations the retry is skipped (the violation is established, keep the run short)."""
     try:
-        with time_limit(limit):
-            r = call(td, op, spelling)
+        try:
+            with time_limit(limit):
+                r = call(td, op, spelling)
+        except TimeoutError:
+            if _CONFIRMED_TIMEOUTS[0] >= 3:
+                raise
+            with time_limit(limit * 6):
+                r = call(td, op, spelling)
+    except TimeoutError as e:
+        _CONFIRMED_TIMEOUTS[0] += 1
+        return ["err", "timeout"], e
     except Exception as e:  # noqa: BLE001
         return ["err", err_class(e)], e
     if r is td:
@@ -646,7 +660,7 @@ def oracle_ext(run, kind, specs, args, site="shape_op_ext"):
     except Exception as e:  # noqa: BLE001
         ref, terr = None, e
     try:
-        with time_limit(5.0):
+        with time_limit(30.0):
             res = go(tds, use_out=kind.endswith("_out"))
         ierr = None
     except Exception as e:  # noqa: BLE001
@@ -811,7 +825,7 @@ def run_container(run, spec, op, kind, rng, malformed=False):
         return
     site = "shape_op" if kind == "tc" else "shape_op_lazy"
     try:
-        with time_limit(5.0):
+        with time_limit(30.0):
             r = call(cont, op)
     except Exception as e:  # noqa: BLE001
         impl, raw = ["err", err_class(e)], e
